@@ -12,7 +12,7 @@ from refjose.prim import b64u_dec, b64_int
 KINDS = (["oct:8", "oct:128", "oct:256", "oct:1024", "RSA:2048", "RSA:1024"] + ["EC:" + c for c in gen.EC_CURVES]
          + ["OKP:" + c for c in gen.OKP_CURVES])
 #: RSA keys as other implementations make them (odd modulus length, e = 3 / 17 / 2^32+1)
-UNUSUAL_RSA = ["RSA:2047e65537", "RSA:2048e3", "RSA:2049e17", "RSA:2048e4294967297"]
+UNUSUAL_RSA = ["RSA:2047e65537", "RSA:2048e3", "RSA:2049e17", "RSA:2048e4294967297", "RSA:2050e65537", "RSA:1030e65537"]
 REPS = ["jwk-private", "jwk-public", "pem-private", "pem-public", "der-private", "der-public", "pem-encrypted", "generated"]
 EXTRAS = [None, {"use": "sig"}, {"use": "enc"}, {"key_ops": ["sign", "verify"]}, {"alg": "X1", "kid": "explicit-kid"},
           {"kid": "k1", "x5t": "abc"}, {"use": "enc", "key_ops": ["deriveKey"], "kid": "é"}, {"kid": ""}, {"kid": "0"}]
